@@ -551,6 +551,7 @@ def make_threads(seed, profile):
                 f, a = branches[0]['f'], branches[0]['args']
             branches.append({'s': 'sb', 'f': f, 'args': a})
     combo = False
+    kf_family = None
     if rnd.random() < 0.3:
         # canonical race shape: a failing and a succeeding output that share a new (or stale) directory chain
         combo = True
@@ -558,6 +559,11 @@ def make_threads(seed, profile):
         fa, fb = rnd.choice([('fR', 'fW'), ('fW', 'fR'), ('fR', 'fR'), ('fN2', 'fW')])
         branches = [{'s': 'bf', 'p': d + ['a1'], 'f': fa, 'args': [0], 'cmp': 'METADATA'},
                     {'s': 'bf', 'p': (d if rnd.random() < 0.6 else d + ['s']) + ['b1'], 'f': fb, 'args': [1], 'cmp': 'HASH'}]
+        if rnd.random() < 0.3:
+            # one call fails while it creates its directories (an over-long component below the shared new
+            # directory: the directories it did create are taken back), the sibling needs the shared directory
+            branches[0]['p'] = d + ['LONG', 'a1']
+            kf_family = 'KF-partial-mkdir-race'
     par = {'s': 'par', 'branches': branches, 'preempt': []}
     steps = []
     for _ in range(rnd.choice([0, 0, 1, 2])):
@@ -570,9 +576,11 @@ def make_threads(seed, profile):
         steps.append({'op': 'build', 'name': 'B', 'vers': {}, 'root': [dict(b, catch=True) for b in branches] + [{'s': 'return'}]})
         for _ in range(rnd.choice([0, 1, 1, 2])):
             b = rnd.choice(branches)
+            bp = b.get('p', ['n', 'f1'])
+            bp = ['n', 'f1'] if 'LONG' in bp else bp
             steps.append(rnd.choice([
-                {'op': 'ext', 'do': 'delete', 'p': b.get('p', ['n', 'f1'])},
-                {'op': 'ext', 'do': 'write', 'p': b.get('p', ['n', 'f1']), 'c': 'c7', 'sz': 6},
+                {'op': 'ext', 'do': 'delete', 'p': bp},
+                {'op': 'ext', 'do': 'write', 'p': bp, 'c': 'c7', 'sz': 6},
                 {'op': 'ext', 'do': 'write', 'p': ['n', 'fz'], 'c': 'c9', 'sz': 4},
                 {'op': 'ext', 'do': 'delete', 'p': ['n']}]))
     crash = rnd.random() < 0.15
@@ -580,8 +588,11 @@ def make_threads(seed, profile):
     steps.append({'op': 'build', 'name': 'B', 'vers': {}, 'root': [json.loads(json.dumps(par)), {'s': 'return'}]})
     if rnd.random() < 0.8:
         steps.append({'op': 'clean', 'name': 'B'})
-    return {'id': '%s-%d' % (profile, seed), 'cache': ['k'], 'universe': [], 'threads': True, 'prog': THREAD_PROGS,
-            'steps': steps, 'combo': combo}
+    sc = {'id': '%s-%d' % (profile, seed), 'cache': ['k'], 'universe': [], 'threads': True, 'prog': THREAD_PROGS,
+          'steps': steps, 'combo': combo}
+    if kf_family:
+        sc['kf_family'] = kf_family       # the shape of an open known finding (known_findings.json)
+    return sc
 
 
 def make_threads_rb(seed, profile):
